@@ -350,7 +350,7 @@ impl Mon {
             !r.taint.contains("forged") && !r.taint.contains("rollback") && r.bogus.is_empty()
         };
         // generator-invalid scripts (shadowing etc.) are harness errors, never violations
-        if cls == 'U' {
+        if cls == 'U' && *w.runs[idx].script == *w.script {
             let m = &w.runs[idx].out.msg;
             if m.contains("can't be shadowed") || m.contains("trying to shadow") || m.contains("multiple iterable values") || m.contains("new end block tries") {
                 self.gen_invalid = Some(format!("code {code}: {m}"));
